@@ -152,10 +152,9 @@ Section Check.
   (** do the model's own answers satisfy the theorems' right-hand sides on this case?  (sanity of the
       instantiation: must be true whenever the case is in the theorems' domain) *)
   Definition show_thm (p : list row) (sm : sres) (cs : list string) : bool :=
-    match p, sm with
-    | [], STable ns body => match body with [] => true | _ => false end
-    | _ :: _, STable ns body => names_eqb ns cs && rows_eqb body p
-    | _, SRaise => false
+    match sm with
+    | STable ns body => names_eqb ns cs && rows_eqb body p
+    | SRaise => false
     end.
 
   Definition thm_ok (d : df) (input : frame) (o : obs) : bool :=
@@ -165,8 +164,7 @@ Section Check.
     | OIsEmpty _ => Bool.eqb (isempty_model c a d input) (Nat.eqb (List.length l) 0)
     | OHead _ => match head_model c a None d input with HRow r => opt_row_eqb r (hd_error l) | _ => false end
     | OFirst _ => match first_model c a d input with HRow r => opt_row_eqb r (hd_error l) | _ => false end
-    | OHeadN n _ => match n with O => true | _ =>
-                      match head_model c a (Some n) d input with HList l' => rows_eqb l' (firstn n l) | _ => false end end
+    | OHeadN n _ => match head_model c a (Some n) d input with HList l' => rows_eqb l' (firstn n l) | _ => false end
     | OLimitN n _ => rows_eqb (collect (limit_df c n d) input) (firstn n l)
     | OShow n _ => show_thm (firstn n l) (show_model c a n d input) (columns d)
     | OShowD _ => let n := Z.to_nat (a_show_default a) in show_thm (firstn n l) (show_model c a n d input) (columns d)
